@@ -16,7 +16,7 @@ def explore(run_one: Callable[[Tuple[int, ...]], "object"], tie_budget: Optional
     n = 0
     while stack:
         prefix = stack.pop()
-        res = run_one(prefix)
+        res = _run_with_retry(run_one, prefix)
         n += 1
         yield prefix, res
         if max_execs is not None and n >= max_execs:
@@ -37,6 +37,23 @@ def explore(run_one: Callable[[Tuple[int, ...]], "object"], tie_budget: Optional
                 new.append(taken[:i] + (alt,))
         # DFS order: simplest deviations first
         stack.extend(reversed(new))
+
+
+RETRIES = [0]  # executions repeated because a recorded prefix could not be replayed (reported in the evidence)
+
+
+def _run_with_retry(run_one, prefix):
+    """A prefix recorded by one execution must be replayable by the next; if it is not (a timing artefact of an overloaded
+    machine: the stall detector fired in one of the two), the execution is repeated before the divergence is declared real."""
+    for attempt in range(3):
+        try:
+            return run_one(prefix)
+        except Exception as e:  # noqa: BLE001
+            if "replay divergence" not in str(e) or attempt == 2:
+                raise
+            RETRIES[0] += 1
+            import time
+            time.sleep(0.5)
 
 
 class StateCounter:
